@@ -237,6 +237,66 @@ func c01coldBody() {
 	sched.SetOutcome(fmt.Sprint(pi))
 }
 
+// C01 (H): a connection that comes after one that ended badly: the former connection ended with requests (or a
+// part of one) still unread in the proxy - a protocol error in the middle of a pipeline, the end of the stream
+// inside a request, or the client gone while its pipeline waits behind a busy node - and then 1..3 later
+// connections send one request each.
+// oracle    each later connection receives exactly the reply to its own request and nothing else
+func c01afterBrokenBody() {
+	how := []string{"protocol-error-mid-pipeline", "stream-ends-inside-a-request", "client-gone-with-pipeline-behind-a-busy-node", "clean-close", "empty-line-mid-pipeline", "inline-protocol-error-mid-pipeline"}[sched.Choose(sched.ClsInput, 6, "how the former connection ended")]
+	later := 1 + sched.Choose(sched.ClsInput, 3, "later connections")
+	cl := cluster.New(2, 0, 2)
+	s := vfStartStack(cl, vfSvcConfig(0, nil, 0))
+	k := cl.KeyInGroup("k", 0, 0)
+	m0 := cl.Masters()[0]
+	c0 := s.NewClient("c0")
+	ping := resp.Encode(resp.Cmd("PING"))
+	set := resp.Encode(resp.Cmd("SET", k, "former"))
+	switch how {
+	case "protocol-error-mid-pipeline":
+		c0.Send(append(append(append(append([]byte{}, ping...), []byte("*1\r\n:1\r\n")...), set...), ping...))
+	case "empty-line-mid-pipeline":
+		c0.Send([]byte("PING\r\n\r\nPING\r\nSET " + k + " former\r\n"))
+	case "inline-protocol-error-mid-pipeline":
+		c0.Send([]byte("PING\r\n$abc\r\nPING\r\nSET " + k + " former\r\n"))
+	case "stream-ends-inside-a-request":
+		c0.Send(append(append([]byte{}, ping...), []byte("*3\r\n$3\r\nSET\r\n$2\r\nk")...))
+	case "client-gone-with-pipeline-behind-a-busy-node":
+		m0.Stalled = true
+		var raw []byte
+		for i := 0; i < 40; i++ {
+			raw = append(raw, resp.Encode(resp.Cmd("GET", k))...)
+		}
+		c0.Send(append(raw, set...))
+	case "clean-close":
+		c0.Send(ping)
+	}
+	sched.WaitQuiescent()
+	c0.Close()
+	sched.WaitQuiescent()
+	m0.Stalled = false
+	sched.WaitQuiescent()
+	for i := 0; i < later; i++ {
+		c := s.NewClient(fmt.Sprintf("c%d", i+1))
+		sched.WaitQuiescent()
+		if rs, _ := c.Pending(); len(rs) > 0 {
+			sched.Fail("reply-without-request / connection after one that ended badly", fmt.Sprintf("former connection: %s; later connection %d received %v before it sent anything", how, i+1, rs))
+			return
+		}
+		mine := fmt.Sprintf("mine-%d", i)
+		c.Send(append(resp.Encode(resp.Cmd("SET", k, mine)), resp.Encode(resp.Cmd("GET", k))...))
+		sched.WaitQuiescent()
+		rs, _ := c.Pending()
+		if len(rs) != 2 || rs[0].Kind != '+' || string(rs[0].Str) != "OK" || string(rs[1].Str) != mine {
+			sched.Fail("reply-differs / connection after one that ended badly", fmt.Sprintf("former connection: %s; later connection %d sent SET k %s, GET k and received %v", how, i+1, mine, rs))
+			return
+		}
+		c.Close()
+		sched.WaitQuiescent()
+	}
+	sched.SetOutcome(how)
+}
+
 // C01 (H): more requests in flight on one backend connection than its queue of written-but-unanswered requests
 // holds (1024): one MGET (or DEL) over n keys of one node while the node is busy, then the node answers.
 func c01manyInFlightBody() {
@@ -488,5 +548,6 @@ func init() {
 	reg("C01/two-conns", sched.Bounds{P: 1, F: 1, Sel: 1}, sched.Bounds{P: 2, F: 1, Sel: 1}, func(string) func() { return c01twoConnsBody })
 	reg("C01/backend-fifo", sched.Bounds{P: 2, F: 2, Sel: 1}, sched.Bounds{P: 3, F: 2, Sel: 1}, func(string) func() { return c01fifoBody })
 	reg("C01/late-reply", sched.Bounds{P: 2, F: 1, Sel: 1}, sched.Bounds{P: 3, F: 2, Sel: 1}, func(string) func() { return c01lateReplyBody })
+	reg("C01/after-broken", sched.Bounds{}, sched.Bounds{P: 1, F: 1}, func(string) func() { return c01afterBrokenBody })
 	reg("C01/long-pipeline", sched.Bounds{F: 1}, sched.Bounds{P: 1, F: 1}, func(string) func() { return c01longBody })
 }
